@@ -2,11 +2,10 @@ package main
 
 import (
 	"fmt"
-	"runtime/debug"
 	"go/token"
 	"go/types"
+	"runtime/debug"
 	"sort"
-	"strings"
 
 	"golang.org/x/tools/go/ssa"
 )
@@ -65,7 +64,7 @@ func (eng *Engine) verifyFunction(fn *ssa.Function, c *FuncContract, checkLocks 
 		res.Panic = "function has no body"
 		return
 	}
-	st := &State{heap: map[string]Term{}, fresh: map[string]bool{}, published: map[string]bool{}, facts: map[string]bool{}}
+	st := &State{heap: map[string]Term{}, fresh: map[string]bool{}, published: map[string]bool{}, facts: map[string]bool{}, arrVals: map[string]Value{}, freshSeq: map[string]int{}, roots: map[string]rootInfo{}}
 	st.allocTop = e.declare("top0", SInt)
 	st.now = e.declare("now0", SInt)
 	st.assert(Le(Zero, st.allocTop))
@@ -306,9 +305,13 @@ func (e *Exec) frameObligations(st *State, c *FuncContract, pos token.Pos) {
 		if cur.S == old.S {
 			continue
 		}
-		if strings.HasPrefix(k, "cell:") || strings.HasPrefix(k, "ghost:closure$") || strings.HasPrefix(k, "box:") || k == "ghost:bytes$str" {
-			// local variables / closures / boxes: only fresh objects are written
-			// (a store through a pointer parameter to a cell is covered below)
+		if c.Attrs["blocks"] == "true" && e.interferenceKey(k) {
+			// changed by other goroutines while this one was blocked, not by this function
+			continue
+		}
+		if k == "ghost:closedAt" {
+			// write-once companion of closed(): determined by the close events
+			continue
 		}
 		whole := false
 		var excl []Term
@@ -357,7 +360,7 @@ func (eng *Engine) lemmaObligations(tag string) (*FuncResult, error) {
 			}
 		}
 		e := newExec(eng, nil)
-		st := &State{heap: map[string]Term{}, fresh: map[string]bool{}, published: map[string]bool{}, facts: map[string]bool{}}
+		st := &State{heap: map[string]Term{}, fresh: map[string]bool{}, published: map[string]bool{}, facts: map[string]bool{}, arrVals: map[string]Value{}, freshSeq: map[string]int{}, roots: map[string]rootInfo{}}
 		st.allocTop = e.declare("top0", SInt)
 		st.now = e.declare("now0", SInt)
 		env := &SpecEnv{e: e, st: st, vars: map[string]Value{}, what: "lemma " + l.Name}
